@@ -333,8 +333,12 @@ func lcGoroutines() []lcG {
 	return res
 }
 
-// lcQuiescent is vQuiescent of the topic driver (same states, same queues) with the ignore list.
-func lcQuiescent(topics []string) (bool, string) {
+// lcSnapshot classifies the process: "busy" (some goroutine other than the caller can run: wait), "quiet"
+// (every goroutine is parked in a state from which only new input wakes it, hub/topic queues empty: sound
+// quiescence, as vQuiescent of the topic driver, with the ignore list) or "blocked" (every goroutine is parked
+// and at least one of them is parked in a send / lock / semaphore: nobody is left to wake it).
+func lcSnapshot(topics []string) (string, string) {
+	blocked := ""
 	for _, g := range lcGoroutines() {
 		if lcIgnore[g.id] {
 			continue
@@ -342,52 +346,81 @@ func lcQuiescent(topics []string) (bool, string) {
 		switch g.state {
 		case "select", "chan receive", "sleep", "IO wait", "sync.Cond.Wait", "select (no cases)",
 			"chan receive (nil chan)", "finalizer wait", "GC worker (idle)", "GC sweep wait", "GC scavenge wait",
-			"syscall", "force gc (idle)", "debug call", "timer goroutine (idle)", "sync.WaitGroup.Wait":
+			"force gc (idle)", "debug call", "timer goroutine (idle)":
+		case "chan send", "chan send (nil chan)", "semacquire", "sync.Mutex.Lock", "sync.RWMutex.RLock", "sync.RWMutex.Lock",
+			"sync.WaitGroup.Wait":
+			blocked = "goroutine " + g.id + " " + g.state
 		default:
-			return false, "goroutine " + g.id + " " + g.state
+			return "busy", "goroutine " + g.id + " " + g.state
 		}
+	}
+	if blocked != "" {
+		return "blocked", blocked
 	}
 	h := globals.hub
 	if len(h.join)+len(h.routeCli)+len(h.routeSrv)+len(h.meta)+len(h.unreg)+len(h.userStatus) > 0 {
-		return false, "hub queues"
+		return "busy", "hub queues"
 	}
 	for _, name := range topics {
 		if t := h.topicGet(name); t != nil {
 			if len(t.reg)+len(t.unreg)+len(t.clientMsg)+len(t.serverMsg)+len(t.meta)+len(t.exit) > 0 {
-				return false, "topic queues " + name
+				return "busy", "topic queues " + name
 			}
 			if t.supd != nil && len(t.supd) > 0 {
-				return false, "topic supd " + name
+				return "busy", "topic supd " + name
 			}
 		}
 	}
-	return true, ""
+	return "quiet", ""
 }
 
+func lcQuiescent(topics []string) (bool, string) {
+	st, why := lcSnapshot(topics)
+	return st == "quiet", why
+}
+
+// wait returns "" at sound quiescence with no request pending.  It returns "HANG ..." as soon as the
+// process is provably stuck - every goroutine parked, yet a request is pending or a goroutine sits in a
+// send / lock / semaphore - in many consecutive snapshots (no wall-clock guess), or after [limit] of
+// continuous activity.
 func (sc *lcScn) wait(limit time.Duration) string {
 	names := sc.names()
 	deadline := time.Now().Add(limit)
-	okCount := 0
+	okCount, stuckCount := 0, 0
 	why := ""
 	for time.Now().Before(deadline) {
 		runtime.Gosched()
-		if atomic.LoadInt32(&sc.pending) == 0 {
-			q, w := lcQuiescent(names)
-			if q {
-				okCount++
-				if okCount >= 2 {
-					return ""
-				}
-				continue
+		st, w := lcSnapshot(names)
+		pend := atomic.LoadInt32(&sc.pending)
+		switch {
+		case st == "quiet" && pend == 0:
+			okCount++
+			stuckCount = 0
+			if okCount >= 2 {
+				return ""
 			}
+			continue
+		case st == "busy":
+			okCount, stuckCount = 0, 0
 			why = w
-		} else {
-			why = "requests pending"
+		default:
+			// all parked, but a request is pending or a goroutine is blocked
+			okCount = 0
+			stuckCount++
+			if st == "quiet" {
+				why = "requests pending"
+			} else {
+				why = w
+			}
+			if stuckCount >= 20 {
+				return "HANG " + why
+			}
+			time.Sleep(200 * time.Microsecond)
+			continue
 		}
-		okCount = 0
 		time.Sleep(50 * time.Microsecond)
 	}
-	return "HANG " + why
+	return "HANG timeout " + why
 }
 
 func lcWaitQuiet() {
@@ -448,7 +481,7 @@ func lcBlockedDump() string {
 // go on with the next scenario.
 func (sc *lcScn) waitAndRepair() {
 	for round := 0; round < 8; round++ {
-		h := sc.wait(1500 * time.Millisecond)
+		h := sc.wait(10 * time.Second)
 		if h == "" {
 			return
 		}
@@ -495,6 +528,19 @@ func (sc *lcScn) waitAndRepair() {
 						fmt.Fprintf(sc.out, "abandoned %d deluser-blocked\n", i)
 						atomic.StoreInt32(&ls.dead, 1)
 						atomic.AddInt32(&sc.pending, -1)
+						// what is queued behind the stuck request will never be read
+					drainq:
+						for {
+							select {
+							case r := <-ls.reqCh:
+								ls.mu.Lock()
+								ls.notsent = append(ls.notsent, r.rid)
+								ls.mu.Unlock()
+								atomic.AddInt32(&sc.pending, -1)
+							default:
+								break drainq
+							}
+						}
 						repaired = true
 					}
 				}
@@ -522,6 +568,15 @@ func (sc *lcScn) waitAndRepair() {
 			}
 		}
 		if !repaired {
+			// nothing recognisable: print every goroutine that is inside the server or a reader
+			var all []string
+			for _, g := range gs {
+				if !lcIgnore[g.id] && (strings.Contains(g.text, "lcSess).reader") || !strings.Contains(g.text, "zz_verif")) &&
+					!strings.Contains(g.text, "runLocal") && !strings.Contains(g.text, "(*Hub).run") && !strings.Contains(g.text, "testing.") {
+					all = append(all, "goroutine_"+g.id+"_["+strings.ReplaceAll(g.state, " ", "_")+"]:@"+lcFns(g.text, 8))
+				}
+			}
+			fmt.Fprintf(sc.out, "hang fatal pending=%d :: %s\n", atomic.LoadInt32(&sc.pending), strings.Join(all, " | "))
 			fmt.Fprintf(sc.out, "fatal-hang\n")
 			sc.out.Flush()
 			os.Exit(3)
@@ -775,7 +830,7 @@ func (sc *lcScn) finish() {
 	for _, i := range sc.sessIdx() {
 		close(sc.sess[i].reqCh)
 	}
-	h := sc.wait(3 * time.Second)
+	h := sc.wait(10 * time.Second)
 	if h != "" {
 		fmt.Fprintf(sc.out, "hang %s :: %s\n", strings.ReplaceAll(h, " ", "_"), lcBlockedDump())
 	}
